@@ -33,6 +33,9 @@ type SimDisk struct {
 	// without committing: a lost write. -1 / zero value with closes==0 semantics: see NewSimDisk.
 	FailCloseN int
 	closes     int
+	// WipeoutLostAck makes the next Wipeout remove everything and then report an error (the
+	// acknowledgement is lost, or the bucket itself cannot be removed after its objects were).
+	WipeoutLostAck bool
 }
 
 // NewSimDisk returns an empty store.
@@ -212,6 +215,11 @@ func (d *SimDisk) Wipeout(_ context.Context, bucket string) error {
 		d.Apply(rec)
 		d.Log = append(d.Log, rec)
 		d.R.Eventf("disk wipe %s", bucket)
+		if d.WipeoutLostAck {
+			d.WipeoutLostAck = false
+			d.R.Fault("wipeout-lost-ack", "%s", bucket)
+			return Err("disk.Wipeout (objects removed, acknowledgement lost)")
+		}
 		return nil
 	})
 }
